@@ -2,9 +2,13 @@
 # usage: import_redteam.py <dir with <ID>-<k>/ subdirs>  — validates white-box findings and stores them under /verif/redteam
 import json, os, subprocess, sys, shutil, glob
 src = sys.argv[1]
+tag = sys.argv[2] if len(sys.argv) > 2 else ''  # e.g. 'r2': stored as <ID>-r2-<k>
 head = subprocess.run(['git','-C','/repo','rev-parse','--short','HEAD'],capture_output=True,text=True).stdout.strip()
 for d in sorted(glob.glob(src + '/C[0-9][0-9]-[0-9]*')):
     name = os.path.basename(d)
+    if tag:
+        pid, rest = name.split('-', 1)
+        name = pid + '-' + tag + '-' + rest
     if not os.path.exists(d + '/patch.diff') or not os.path.exists(d + '/demo_test.go'):
         print('INCOMPLETE', d); continue
     dst = '/verif/redteam/' + name
